@@ -15,12 +15,15 @@ import (
 	"math/rand"
 	"os"
 	"os/exec"
+	"sort"
 	"path/filepath"
 	"strings"
 	"sync"
 	"time"
 
 	"github.com/idena-network/idena-go/blockchain/types"
+	"github.com/idena-network/idena-go/common"
+	"github.com/idena-network/idena-go/crypto"
 	"github.com/idena-network/idena-go/config"
 	"github.com/idena-network/idena-go/core/ceremony"
 	"github.com/idena-network/idena-go/core/state"
@@ -57,11 +60,17 @@ func c01world(p c01params) (*chainfx.World, chainfx.HistoryOpts) {
 	// first qualified one): Humans (authors with extra flips), Suspended / Zombie (come back as Verified), candidates, newbies
 	w := chainfx.NewWorldStates(p.Seed, 10, 0, time.Date(2030, 1, 1, 0, 0, 0, 0, time.UTC), state.Human,
 		[]state.IdentityState{state.Human, state.Human, state.Suspended, state.Zombie, state.Newbie, state.Candidate, state.Human, state.Suspended, state.Candidate, state.Newbie})
-	// epochs of 14 minutes (42 blocks): three validation ceremonies within one history, the later ones with flips
-	w.Opts.Validation = &config.ValidationConfig{ValidationInterval: 14 * time.Minute, FlipLotteryDuration: 2 * time.Minute,
+	// epochs of 18 minutes (54 blocks): several validation ceremonies within one history, the later ones with flips
+	w.Opts.Validation = &config.ValidationConfig{ValidationInterval: 18 * time.Minute, FlipLotteryDuration: 2 * time.Minute,
 		ShortSessionDuration: time.Minute, LongSessionDuration: 2 * time.Minute}
 	w.Opts.FirstCeremony = w.T0.Add(8 * time.Minute).Unix()
-	return w, chainfx.HistoryOpts{TxPerBlock: 4, WithFlips: true, MoreFlips: true, Always: map[int]bool{0: true}}
+	// key holders without identity (fresh or terminated) are invited and activate; every other history starts as a network
+	// of three equally sized shards (ties for the minimal shard, per-shard lotteries)
+	w.AddFresh(4)
+	if p.Seed%2 == 1 {
+		w.Sharded(3)
+	}
+	return w, chainfx.HistoryOpts{TxPerBlock: 4, WithFlips: true, MoreFlips: true, Onboard: true, OnlineAtOnce: true, Always: map[int]bool{0: true}}
 }
 
 func traceLine(n *chainfx.Node) string {
@@ -107,6 +116,72 @@ func c01realCeremony() {
 
 func isCeremonyTx(t uint16) bool {
 	return t == types.SubmitAnswersHashTx || t == types.SubmitShortAnswersTx || t == types.SubmitLongAnswersTx || t == types.EvidenceTx
+}
+
+// ---- protocol lines of a follower (model: lean/IdenaModel/Model/CeremonyEpoch.lean, driver oracle_c01h) -------------
+func payloadId(b []byte) uint32 {
+	h := crypto.Hash(b)
+	return uint32(h[0])<<16 | uint32(h[1])<<8 | uint32(h[2])
+}
+
+func recKind(t uint16) int {
+	switch t {
+	case types.SubmitLongAnswersTx:
+		return 0
+	case types.SubmitShortAnswersTx:
+		return 1
+	case types.SubmitAnswersHashTx:
+		return 2
+	case types.EvidenceTx:
+		return 3
+	}
+	return -1
+}
+
+// blkLine: the ceremony transactions of a block as the model sees them
+func blkLine(w *chainfx.World, b *types.Block) string {
+	var parts []string
+	if b.Body != nil {
+		for _, tx := range b.Body.Transactions {
+			k := recKind(tx.Type)
+			if k < 0 {
+				continue
+			}
+			s, _ := types.Sender(tx)
+			pl := tx.Payload
+			if k == 2 {
+				pl = common.BytesToHash(tx.Payload).Bytes()
+			}
+			parts = append(parts, fmt.Sprintf("%d:%d:%d", w.Index(s)+1, k, payloadId(pl)))
+		}
+	}
+	f := 0
+	if b.Header.Flags().HasFlag(types.ValidationFinished) {
+		f = 1
+	}
+	if len(parts) == 0 {
+		return fmt.Sprintf("blk %d -", f)
+	}
+	return fmt.Sprintf("blk %d %s", f, strings.Join(parts, ","))
+}
+
+// ansLine: what the node's ceremony object holds
+func ansLine(w *chainfx.World, n *chainfx.Node) string {
+	ep, recs := n.VC.FxRecords()
+	type e struct{ a, k int; p uint32 }
+	var es []e
+	for _, r := range recs {
+		es = append(es, e{w.Index(r.Addr) + 1, r.Kind, payloadId(r.Payload)})
+	}
+	sort.Slice(es, func(i, j int) bool { return es[i].a < es[j].a || es[i].a == es[j].a && es[i].k < es[j].k })
+	var parts []string
+	for _, x := range es {
+		parts = append(parts, fmt.Sprintf("%d:%d:%d", x.a, x.k, x.p))
+	}
+	if len(parts) == 0 {
+		return fmt.Sprintf("e=%d -", ep)
+	}
+	return fmt.Sprintf("e=%d %s", ep, strings.Join(parts, ","))
 }
 
 // child: generator
@@ -207,6 +282,12 @@ func c01gen(c *hx.Ctx, p c01params) error {
 		fmt.Fprintln(bf, hex.EncodeToString(raw))
 		fmt.Fprintln(tf, traceLine(n))
 		c.Hit(fmt.Sprintf("gen-block-flags:%d", p1.Block.Header.Flags()))
+		if p1.Block.Header.Flags().HasFlag(types.AfterLongSessionStarted) && os.Getenv("C01_DEBUG") != "" {
+			id := n.App.State.GetIdentity(w.Addrs[0])
+			sh, lo := n.VC.FxAnswerCounts()
+			ns, nl := n.VC.FxFlipsToSolve(w.Addrs[0])
+			fmt.Fprintln(os.Stderr, "after-long: god flips", len(id.Flips), "required", id.RequiredFlips, "state", id.State, "answers short/long", sh, lo, "god to solve", ns, nl, "hasShort", n.App.State.HasValidationTx(w.Addrs[0], types.SubmitShortAnswersTx), "hasLong", n.App.State.HasValidationTx(w.Addrs[0], types.SubmitLongAnswersTx), "hasHash", n.App.State.HasValidationTx(w.Addrs[0], types.SubmitAnswersHashTx))
+		}
 		if p1.Block.Header.Flags().HasFlag(types.ValidationFinished) && os.Getenv("C01_DEBUG") != "" {
 			var st []string
 			for i, a := range w.Addrs {
@@ -242,6 +323,7 @@ func c01follow(c *hx.Ctx, p c01params) error {
 	defer tf.Close()
 	sc := bufio.NewScanner(f)
 	sc.Buffer(make([]byte, 1<<20), 64<<20)
+	c.Line("new", "ok")
 	var blocks []*types.Block
 	i := 0
 	restart := func(before uint64) bool {
@@ -255,6 +337,8 @@ func c01follow(c *hx.Ctx, p c01params) error {
 		}
 		n = nn
 		c.Hit("restarts")
+		c.Line("restart", "ok")
+		c.Line("ans", ansLine(w, n))
 		return true
 	}
 	for sc.Scan() {
@@ -281,10 +365,14 @@ func c01follow(c *hx.Ctx, p c01params) error {
 				c.Fail("C01:replica-rejects-block:"+p.Label, fmt.Sprintf("side block at height %d: %v", blk.Height(), err), p)
 				return nil
 			}
+			c.Line(blkLine(w, blk), "ok")
+			c.Line("ans", ansLine(w, n))
 			if _, err := n.Chain.ResetTo(blk.Height() - 1); err != nil {
 				c.Fail("C01:reset-failed:"+p.Label, err.Error(), p)
 				return nil
 			}
+			c.Line("reset 1", "ok")
+			c.Line("ans", ansLine(w, n))
 			c.Hit("fork-switches")
 			if p.Fork == 2 && !restart(blk.Height()) {
 				return nil
@@ -306,6 +394,8 @@ func c01follow(c *hx.Ctx, p c01params) error {
 				c.Fail("C01:reset-failed:"+p.Label, err.Error(), p)
 				return nil
 			}
+			c.Line(fmt.Sprintf("reset %d", k), "ok")
+			c.Line("ans", ansLine(w, n))
 			for _, rb := range blocks[len(blocks)-1-k : len(blocks)-1] {
 				cb, _ := chainfx.CloneBlock(rb)
 				fin := rb.Header.Flags().HasFlag(types.ValidationFinished)
@@ -320,6 +410,8 @@ func c01follow(c *hx.Ctx, p c01params) error {
 					c.Fail(sig, fmt.Sprintf("re-adding height %d (flags %d) after reset: %v", rb.Height(), rb.Header.Flags(), err), p)
 					return nil
 				}
+				c.Line(blkLine(w, cb), "ok")
+				c.Line("ans", ansLine(w, n))
 			}
 			c.Hit("reorgs")
 		}
@@ -328,6 +420,8 @@ func c01follow(c *hx.Ctx, p c01params) error {
 			return nil
 		}
 		fmt.Fprintln(tf, traceLine(n))
+		c.Line(blkLine(w, blk), "ok")
+		c.Line("ans", ansLine(w, n))
 	}
 	return nil
 }
@@ -380,6 +474,19 @@ func c01parent(c *hx.Ctx) error {
 			return nil, err
 		}
 		mu.Lock()
+		if p.Mode == "follow" {
+			// the follower's protocol lines become lines of this channel (answered by the Lean model of the ceremony records)
+			ob, _ := os.ReadFile(filepath.Join(dir, "ops.txt"))
+			ib, _ := os.ReadFile(filepath.Join(dir, "impl.txt"))
+			ol, il := strings.Split(strings.TrimRight(string(ob), "\n"), "\n"), strings.Split(strings.TrimRight(string(ib), "\n"), "\n")
+			if len(ol) == len(il) {
+				for k := range ol {
+					if ol[k] != "" {
+						c.Line(ol[k], il[k])
+					}
+				}
+			}
+		}
 		if d, ok := rep.Coverage["distribution"].(map[string]interface{}); ok {
 			for k, v := range d {
 				if f, ok := v.(float64); ok {
@@ -420,7 +527,7 @@ func c01parent(c *hx.Ctx) error {
 		if only != nil {
 			seed, tzs = only.Seed, only.Tz
 		}
-		blocks := 260
+		blocks := 290
 		if tzs {
 			blocks = 70
 		}
